@@ -952,7 +952,15 @@ func (c *Ctx) coreField(name string) *types.Var {
 			return st.Field(i)
 		}
 	}
-	return nil
+	// renamed? found again by its type and the functions that use it (reference/anchors.json)
+	if c.fieldMemo == nil {
+		c.fieldMemo = map[string]*types.Var{}
+	}
+	if v, ok := c.fieldMemo[name]; ok {
+		return v
+	}
+	c.fieldMemo[name] = c.renamedField("core", "JApiCore", name)
+	return c.fieldMemo[name]
 }
 
 // pasteRoles finds the functions of the expansion pass by what they do, so that a rename does not lose them:
